@@ -606,7 +606,9 @@ def expected(snap: Snap, start: int, fam: str, form: str, limit, q: Q):
         # (a query that nothing can satisfy has no candidates)
         cand = ax if consumed_to is None else ax[:ax.index(consumed_to) + 1]
         unsat = any(yields_no_rule(c) for c in q.crits())
-        log = [] if unsat else [("t", q.name[1], i) for i in cand if snap.is_tag[i]]
+        # (an unsatisfiable query has no candidates: the log is then left free — /repo HEAD drops the empty criterion and
+        # calls the function, the proposed matches_nothing patch answers before calling it)
+        log = None if unsat else [("t", q.name[1], i) for i in cand if snap.is_tag[i]]
     return res, log
 
 
@@ -647,7 +649,11 @@ def tables(snap: Snap, q: Q):
     return (";".join(re_t) or "-"), (";".join(ft) or "-"), (";".join(fs) or "-")
 
 
-def model_line(snap, start, fam, form, limit, q, variant="r", tabs=None):
+MODEL_VARIANT = __import__("os").environ.get("C10_MODEL_VARIANT", "r")   # r = /repo HEAD, p = HEAD + fixes/proposed, u = 4.13.0
+
+
+def model_line(snap, start, fam, form, limit, q, variant=None, tabs=None):
+    variant = variant or MODEL_VARIANT
     re_t, ft, fs = tabs or tables(snap, q)
     lim = "none" if limit is None else str(limit)
     f = {"all": "all", "one": "one", "call": "call.1" if fam == "desc" else "call.0"}.get(form, form)
@@ -677,12 +683,18 @@ def parse_model(fam, reply, singular):
 def classify(q: Q, limit, form):
     if form in ("all", "call") and limit == 0:
         return "C10-limit-zero"
+    if q.attrs[0] == "S" and not py_truthy(q.attrs[1]):
+        return "C10-falsy-attrs-ignored"
+    cr = ([q.name] if q.name != ("n",) else []) + ([c for _, c in (q.attrs[1] if q.attrs[0] == "D" else [("class", q.attrs[1])])]) \
+        + [c for _, c in q.kwargs] + ([q.string] if q.string != ("n",) else [])
+    if len(cr) >= 2 and any(yields_no_rule(c) for c in cr):
+        return "C10-empty-list-combined"
     return None
 
 
 def code_path(q: Q, limit):
     """which branch of _find_all the case is expected to take (for the input distribution only)"""
-    basic = q.string == ("n",) and not q.kwargs and q.attrs[0] == "D" and not q.attrs[1]
+    basic = q.string == ("n",) and not q.kwargs and (not q.attrs[1] if q.attrs[0] == "D" else not py_truthy(q.attrs[1]))
     if basic and q.name == ("n",):
         return "no-criteria-branch"
     if basic and not limit:
